@@ -27,6 +27,7 @@ import (
 	"github.com/uber/kraken/lib/persistedretry"
 	"github.com/uber/kraken/lib/persistedretry/writeback"
 	"github.com/uber/kraken/lib/store"
+	"github.com/uber/kraken/lib/store/base"
 	"github.com/uber/kraken/lib/store/metadata"
 	"github.com/uber/kraken/origin/blobserver"
 	"github.com/uber/kraken/utils/verifh"
@@ -166,8 +167,25 @@ func c10oOne(t *verifh.T, toks []string) {
 		_, oerr := cas.GetCacheFileStat(otherName)
 		otherPresent = oerr == nil
 	}
+	// is the blob still marked as awaiting write-back?  the sidecar, and what a delete request answers
+	flag := "-"
+	var pm metadata.Persist
+	if merr := cas.GetCacheFileMetadata(name, &pm); merr == nil {
+		flag = verifh.Bool(pm.Value)
+	} else if !os.IsNotExist(merr) {
+		flag = "?"
+	}
+	del := "fail"
+	switch derr := cas.DeleteCacheFile(name); {
+	case derr == nil:
+		del = "ok"
+	case derr == base.ErrFilePersisted:
+		del = "persisted"
+	case os.IsNotExist(derr):
+		del = "notexist"
+	}
 	t.One(append([]string{"maybedelete"}, toks...), result, "executed="+strconv.Itoa(wb.executed), "present="+verifh.Bool(serr == nil),
-		"other="+verifh.Bool(otherPresent))
+		"other="+verifh.Bool(otherPresent), "flag="+flag, "del="+del)
 }
 
 func TestVerif_C10Force(t *testing.T) {
